@@ -1,8 +1,8 @@
 package main
 
 import (
-	"math"
 	"encoding/json"
+	"math"
 	"sort"
 
 	"github.com/esimov/gogu"
